@@ -5,6 +5,14 @@ export PATH=/verif/tools/bin:$PATH
 export CARGO_NET_OFFLINE=true
 export RUSTFLAGS="--cfg penne_verif --check-cfg cfg(penne_verif)"
 export CARGO_TARGET_DIR=/verif/target/engine
+if [ "$1" = "cli" ]; then
+  unset RUSTFLAGS
+  export CARGO_TARGET_DIR=/verif/target/cli
+  mkdir -p /verif/target
+  cd /repo
+  cargo build --offline -q --features alpha,llvm-sys --bin penne 2>/verif/target/build-cli.log || { grep -v "^warning\|^ *|\|^ *=\|^ *-->\|^$" /verif/target/build-cli.log | head -80 >&2; exit 2; }
+  exit 0
+fi
 cd /verif/engine
 if [ "$1" = "release" ]; then
   cargo build --release --offline -q 2>/verif/target/build-release.log || { cat /verif/target/build-release.log >&2; exit 2; }
